@@ -932,6 +932,10 @@ func newScanner(i io.Reader) *bufio.Scanner {
 				// We have a line terminated by single newline.
 				return i + 1, data[0:i], nil
 			}
+			// We have a carriage return at the end of the data: request more data to know whether a newline follows
+			if !atEOF && len(data) == i+1 {
+				return 0, nil, nil
+			}
 			advance = i + 1
 			if len(data) > i+1 && data[i+1] == '\n' {
 				advance += 1
